@@ -54,8 +54,8 @@ CLAIM = {
             "of reported columns), gases in sections -> series. Not claimed: thermal results of n sections vs 1 section "
             "(uniform temperature only). Directional elements (pumps, compressors, controllers, heat consumers) are never "
             "reversed; pi valves are left untouched. df/dm is even only for odd der_lambda; calc_der_lambda is even "
-            "(Newton path, not fixed points). Known finding: gas v_mean depends on the declared orientation by <= 1e-5 "
-            "relative (isclose fallback of the mean pressure; patch in design_notes/patches/). Axioms: Coq reals "
+            "(Newton path, not fixed points). No known finding is open (the gas mean-pressure fallback found here was "
+            "repaired in /repo c6a5196 with the patch of design_notes/patches/). Axioms: Coq reals "
             "(ClassicalDedekindReals.sig_forall_dec, sig_not_dec, FunctionalExtensionality.functional_extensionality_dep) "
             "and Classical_Prop.classic via the stdlib; load, chain and C04-cited theorems are closed under the global context.",
     "technique": "Coq proof over generated kernels + hand model with exact in-Coq correspondence + C08 uniqueness + "
@@ -299,9 +299,6 @@ def classify(clause, profile, spec, diff, s1=None):
         if s1 is not None:      # the same pipe in the other description (absent there if it was split into pieces)
             n = max(n, spec_info(s1).get(lab, {}).get("sections", 1))
         sig["multi_section"] = n > 1
-    if sig["column"] == "v_mean_m_per_s" and spec.get("fluid") != "water" and isinstance(x, float) and isinstance(y, float):
-        # size of the deviation: the isclose fallback of the gas mean pressure can move v_mean by at most 1e-5 relative
-        sig["gas_rel_dev_le_1e-5"] = abs(x - y) <= 1.1e-5 * abs(x)
     return sig
 
 
